@@ -362,7 +362,7 @@ func VerifH02() {
 // VerifH02b: GetFiles / mergeFiles under every iteration order of every map it ranges over,
 // for one reader and level at a time.
 func VerifH02b() {
-	s := verifBuildState(verifEvents())
+	s := verifBuildState(4) // the permutation of every map order multiplies the paths: 4 events in both tiers
 	s.permT = nd.Choice("reader", 3)
 	if s.permT != 0 && !s.begun[s.permT] {
 		nd.Assume(false)
